@@ -193,6 +193,44 @@ def parse_model(res):
     return d
 
 
+def draw(n, words, pos):
+    """randomUint32n on a word tape: (index, next position)"""
+    while pos < len(words):
+        w = words[pos]
+        pos += 1
+        if n & (n - 1) == 0:
+            return w & (n - 1), pos
+        if w < chargen.discard(n):
+            return w % n, pos
+    return None, pos
+
+
+def caps_from_tape(scheme, L, words):
+    """which of the L positions the scheme capitalises, given the raw words the generation starts with"""
+    if L < 1:
+        return []
+    if scheme == "first":
+        return [i == 0 for i in range(L)]
+    if scheme == "all":
+        return [True] * L
+    if scheme == "one":
+        if words is None:
+            return None
+        w, _ = draw(L, words, 0)
+        return None if w is None else [i == w for i in range(L)]
+    if scheme == "random":
+        if words is None:
+            return None
+        out, pos = [], 0
+        for _ in range(L):
+            b, pos = draw(2, words, pos)
+            if b is None:
+                return None
+            out.append(b == 1)
+        return out
+    return [False] * L
+
+
 def fmt_entropy(desc):
     """what fmt.Printf("%.2f\\n", float32) prints for the entropy the model describes; None when within rounding doubt"""
     if desc.startswith("W:"):
@@ -272,9 +310,10 @@ def correspondence(ctx):
              (["words", "--list=syllables", "--size=5"], "default"), (["words", "--separator=digit", "--capitalize=one"], "default")]
     cases += [gen_argv(rng, files) for _ in range(n)]
     exe = os.path.join(core.BUILD, "opgen")
-    lines, impls = [], []
+    lines, impls, tapes = [], [], []
     for i, (argv, kind) in enumerate(cases):
         words = [rng.randrange(W) for _ in range(2048)]
+        tapes.append(words)
         tape = os.path.join(tmp, "tape%d" % i)
         with open(tape, "wb") as f:
             f.write(b"".join(w.to_bytes(4, "big") for w in words))
@@ -291,6 +330,8 @@ def correspondence(ctx):
     for i, (argv, kind) in enumerate(cases):
         rc, out, err = impls[i]
         m = parse_model(model.get("k%d" % i))
+        if m is not None:
+            m["_words"] = tapes[i]
         ctx.evaluations += 1
         fam["cases"] += 1
         why = compare_case(ctx, fam, argv, files, rc, out, err, m)
@@ -350,14 +391,19 @@ def compare_case(ctx, fam, argv, files, rc, out, err, m):
         if ws is None:
             return "cannot determine the word list"
         wordset = set(ws)
-        tset = set(title_simple(w) for w in ws)
+        v = flag_values(argv)
+        n_atoms = sum(1 for _, ty in m["pw"] if ty == 1)
+        caps = caps_from_tape(v.get("capitalize", "none"), n_atoms, m.get("_words"))
+        if caps is None:
+            return "cannot determine the capitalised positions"
         pattern = []
-        for v, ty in m["pw"]:
+        k = 0
+        for val, ty in m["pw"]:
             if ty == 0:
-                pattern.append(("sep", v.decode()))
+                pattern.append(("sep", val.decode()))
             else:
-                s = v.decode()
-                pattern.append(("atom", (s in tset and s not in wordset)))
+                pattern.append(("atom", caps[k]))
+                k += 1
         return None if match_words(line, pattern, wordset, max(len(w) for w in ws)) else "password line %r does not fit the model's token pattern %r" % (line[:80], pattern[:9])
     return "unknown plan " + plan
 
